@@ -90,7 +90,12 @@ func (c *Ctx) hdocChains() []hdocChain {
 			if par < 0 {
 				break
 			}
-			if _, ok := c.Items[par].Node.(*syntax.BinaryCmd); !ok {
+			switch c.Items[par].Node.(type) {
+			case *syntax.BinaryCmd, *syntax.TimeClause, *syntax.CoprocClause:
+			default:
+				par = -1
+			}
+			if par < 0 {
 				break
 			}
 			root = c.Items[par].Parent
@@ -195,13 +200,16 @@ var Classes = []Class{
 		Match: func(c *Ctx) bool {
 			check := func(parts []syntax.WordPart) bool {
 				for i := 0; i+1 < len(parts); i++ {
+					if l, ok := parts[i].(*syntax.Lit); ok && c.Lang == "zsh" && strings.Contains(l.Value, "$") {
+						return true
+					}
 					cs, ok := parts[i+1].(*syntax.CmdSubst)
 					if !ok || !cs.Backquotes {
 						continue
 					}
 					switch p := parts[i].(type) {
 					case *syntax.Lit:
-						if strings.HasSuffix(p.Value, "$") {
+						if n := len(p.Value); n > 0 && strings.Contains(p.Value[max(0, n-2):], "$") {
 							return true
 						}
 					case *syntax.ParamExp:
@@ -285,19 +293,10 @@ func init() {
 		},
 		Class{
 			ID:   "C01-let-then-comment",
-			What: "a let clause followed by a comment on the same line (printed as 'let x #...', which let parses as an expression)",
+			What: "a let clause in a program with comments: a comment printed after it ('let x # c') is parsed by let as an expression",
 			Match: func(c *Ctx) bool {
-				return c.anyNode(func(_ int, it norm.Item) bool {
-					lc, ok := it.Node.(*syntax.LetClause)
-					if !ok {
-						return false
-					}
-					line := lc.End().Line()
-					return c.anyNode(func(_ int, jt norm.Item) bool {
-						cm, ok := jt.Node.(*syntax.Comment)
-						return ok && cm.Hash.Line() == line
-					})
-				})
+				let := c.anyNode(func(_ int, it norm.Item) bool { _, ok := it.Node.(*syntax.LetClause); return ok })
+				return let && c.anyNode(func(_ int, it norm.Item) bool { _, ok := it.Node.(*syntax.Comment); return ok })
 			},
 		},
 		Class{
@@ -398,15 +397,18 @@ func init() {
 		},
 		Class{
 			ID:   "C01-zsh-redirect-before-funcdecl",
-			What: "zsh: a redirection written before a function declaration is printed after it (where it belongs to the body)",
+			What: "zsh: a redirection written before a function declaration or another compound command is printed after it (where it parses differently)",
 			Match: func(c *Ctx) bool {
 				return c.anyNode(func(_ int, it norm.Item) bool {
 					st, ok := it.Node.(*syntax.Stmt)
-					if !ok || len(st.Redirs) == 0 {
+					if !ok || len(st.Redirs) == 0 || st.Cmd == nil {
 						return false
 					}
-					_, fd := st.Cmd.(*syntax.FuncDecl)
-					return fd
+					if _, fd := st.Cmd.(*syntax.FuncDecl); fd {
+						return true
+					}
+					_, call := st.Cmd.(*syntax.CallExpr)
+					return c.Lang == "zsh" && !call && st.Cmd.Pos().After(st.Redirs[0].Pos())
 				})
 			},
 		},
@@ -501,24 +503,35 @@ func init() {
 			},
 		},
 		Class{
-			ID:   "C01-zsh-hash-escaped-newline",
-			What: "zsh: '#' directly followed by an escaped newline inside a word",
+			ID:   "C01-hash-escaped-newline",
+			What: "'#' directly followed by an escaped newline inside a word (the rest of the word is printed in a different place)",
 			Match: func(c *Ctx) bool {
-				return c.Lang == "zsh" && (strings.Contains(c.Src, "#\\\n") || strings.Contains(c.Src, "#\\\r\n"))
+				return strings.Contains(c.Src, "#\\\n") || strings.Contains(c.Src, "#\\\r\n")
 			},
 		},
 		Class{
 			ID:   "C01-redirect-extglob-word",
-			What: "a redirection whose word contains an extended glob, printed after an assignment-only command (a=b >?(x) is rejected by the parser)",
+			What: "an extended glob in a redirection word, or anywhere in a simple command that has an assignment prefix: printed after the assignment, where the parser rejects it (a=b >?(x), a= >f @(x))",
 			Match: func(c *Ctx) bool {
 				return c.anyNode(func(_ int, it norm.Item) bool {
-					r, ok := it.Node.(*syntax.Redirect)
-					if !ok || r.Word == nil || len(r.Word.Parts) == 0 {
-						return false
-					}
-					for _, p := range r.Word.Parts {
-						if _, eg := p.(*syntax.ExtGlob); eg {
-							return true
+					switch n := it.Node.(type) {
+					case *syntax.Redirect:
+						if n.Word == nil {
+							return false
+						}
+						for _, p := range n.Word.Parts {
+							if _, eg := p.(*syntax.ExtGlob); eg {
+								return true
+							}
+						}
+					case *syntax.CallExpr:
+						if len(n.Assigns) == 0 {
+							return false
+						}
+						for _, jt := range norm.Enumerate(n) {
+							if _, eg := jt.Node.(*syntax.ExtGlob); eg {
+								return true
+							}
 						}
 					}
 					return false
@@ -526,18 +539,41 @@ func init() {
 			},
 		},
 		Class{
-			ID:   "C01-for-name-comment",
-			What: "'for name' without 'in' followed by a comment on the same line (SingleLine prints 'for a# c')",
+			ID:    "C01-paren-comment-paren",
+			What:  "a subshell or substitution whose first or last command is itself a subshell or (( )): with comments, lone printing or line breaks in between the parentheses are printed adjacent ('(((', '))')",
+			Match: func(c *Ctx) bool { return ParenAdjacent(c.File) },
+		},
+		Class{
+			ID:    "C01-minify-escaped-space",
+			What:  "Minify: a word ending in an escaped space followed by a process substitution or redirect (the separating space is dropped)",
+			Match: func(c *Ctx) bool { return c.Cfg.Minify && strings.Contains(c.Src, "\\ ") },
+		},
+		Class{
+			ID:   "C01-mksh-empty-valsub",
+			What: "mksh: an empty ${ ;} or ${|;} command substitution (Minify prints ${|;})",
 			Match: func(c *Ctx) bool {
 				return c.anyNode(func(_ int, it norm.Item) bool {
+					cs, ok := it.Node.(*syntax.CmdSubst)
+					return ok && (cs.TempFile || cs.ReplyVar) && len(cs.Stmts) == 0
+				})
+			},
+		},
+		Class{
+			ID:   "C01-for-name-comment",
+			What: "'for name' without 'in' followed by a comment before 'do' or on its line (SingleLine prints 'for a# c')",
+			Match: func(c *Ctx) bool {
+				return c.anyNode(func(i int, it norm.Item) bool {
 					wi, ok := it.Node.(*syntax.WordIter)
-					if !ok || wi.InPos.IsValid() {
+					if !ok || wi.InPos.IsValid() || it.Parent < 0 {
 						return false
 					}
-					line := wi.Name.End().Line()
+					fc, ok := c.Items[it.Parent].Node.(*syntax.ForClause)
+					if !ok {
+						return false
+					}
 					return c.anyNode(func(_ int, jt norm.Item) bool {
 						cm, ok := jt.Node.(*syntax.Comment)
-						return ok && cm.Hash.Line() == line
+						return ok && !wi.Name.End().After(cm.Hash) && cm.Hash.Line() <= fc.DoPos.Line()
 					})
 				})
 			},
@@ -583,6 +619,46 @@ func LoneSubshellParen(n syntax.Node) bool {
 		}
 		switch cmd.(type) {
 		case *syntax.Subshell, *syntax.ArithmCmd:
+			return true
+		}
+	}
+	return false
+}
+
+// ParenAdjacent reports whether the tree has a subshell, command or process
+// substitution whose first or last command is itself a subshell or (( )):
+// the "( (" and ") )" spacing family.
+func ParenAdjacent(n syntax.Node) bool {
+	edge := func(st *syntax.Stmt, first bool) bool {
+		cmd := st.Cmd
+		for {
+			b, ok := cmd.(*syntax.BinaryCmd)
+			if !ok {
+				break
+			}
+			if first {
+				cmd = b.X.Cmd
+			} else {
+				cmd = b.Y.Cmd
+			}
+		}
+		switch cmd.(type) {
+		case *syntax.Subshell, *syntax.ArithmCmd:
+			return true
+		}
+		return false
+	}
+	for _, it := range norm.Enumerate(n) {
+		var stmts []*syntax.Stmt
+		switch x := it.Node.(type) {
+		case *syntax.Subshell:
+			stmts = x.Stmts
+		case *syntax.CmdSubst:
+			stmts = x.Stmts
+		case *syntax.ProcSubst:
+			stmts = x.Stmts
+		}
+		if len(stmts) > 0 && (edge(stmts[0], true) || edge(stmts[len(stmts)-1], false)) {
 			return true
 		}
 	}
